@@ -143,6 +143,10 @@ pub fn build(spec: &BlindSpec) -> Flow {
         };
         let prevout = OutPoint::new(gen::txid(&mut p), p.below(4) as u32);
         let mut txin = TxIn { previous_output: prevout, ..Default::default() };
+        // a peg-in input now and then (through from_txin its flag bit travels in the stored index, next to the issuance bit)
+        if spec.via_from_tx && p.chance(1, 4) {
+            txin.is_pegin = true;
+        }
         let issue = spec.issuance && p.chance(1, 2);
         if issue {
             let amt = 1 + p.below(1 << 30);
